@@ -98,6 +98,14 @@ pub struct Globals {
     /// handle id -> the command instance it was taken from most recently (registration is a build-time act)
     pub handle_owner: BTreeMap<u32, u64>,
     pub aborted_cmds: BTreeSet<u64>,
+    /// commands aborted by one of the running tasks in the current settle
+    pub cmds_aborted_this_settle: BTreeSet<u64>,
+    /// aborts issued by running tasks: noticed when the command is next polled, i.e. once the
+    /// tasks that are running now have come to rest
+    pub pending_task_aborts: Vec<u64>,
+    pub local_rounds: u64,
+    /// left operand of an `and` -> the combined command it is part of
+    pub inline_parent: BTreeMap<u64, u64>,
     /// the reference evicted something the implementation is known to keep (see known findings)
     pub sticky: Option<String>,
     /// task / chain currently running (owner of the requests it issues)
@@ -171,6 +179,20 @@ impl Globals {
         if let Some(r) = self.reqs.get_mut(&key) {
             r.rx_alive = false;
             r.queue.clear();
+        }
+    }
+
+    /// is this command, or the combined command it is an inline part of, aborted?
+    fn aborted_here_or_inline(&self, uid: u64) -> bool {
+        let mut u = uid;
+        loop {
+            if self.aborted_cmds.contains(&u) {
+                return true;
+            }
+            match self.inline_parent.get(&u) {
+                Some(p) => u = *p,
+                None => return false,
+            }
         }
     }
 
@@ -534,6 +556,13 @@ pub struct Seq {
 }
 
 impl Seq {
+    /// a branch of a join / select: starts with a copy of the enclosing task's join handles
+    fn branch(task: &Task, init: u64, legacy: bool, slots: &BTreeMap<u32, u64>) -> Seq {
+        let mut s = Seq::new(task, init, legacy);
+        s.slots = slots.clone();
+        s
+    }
+
     fn new(task: &Task, init: u64, legacy: bool) -> Seq {
         Seq {
             acc: init,
@@ -688,7 +717,7 @@ impl Seq {
                     if frame.blk.is_none() {
                         let bs = ts
                             .iter()
-                            .map(|t| Branch { seq: Seq::new(t, self.acc, self.legacy), finished: false })
+                            .map(|t| Branch { seq: Seq::branch(t, self.acc, self.legacy, &self.slots), finished: false })
                             .collect();
                         frame.blk = Some(Blk::JoinAll(bs));
                     }
@@ -719,7 +748,7 @@ impl Seq {
                     if frame.blk.is_none() {
                         let bs = ts
                             .iter()
-                            .map(|t| Branch { seq: Seq::new(t, self.acc, self.legacy), finished: false })
+                            .map(|t| Branch { seq: Seq::branch(t, self.acc, self.legacy, &self.slots), finished: false })
                             .collect();
                         frame.blk = Some(Blk::Select(bs));
                     }
@@ -793,6 +822,18 @@ impl Seq {
                     self.tokens += 1;
                     g.tokens += 1;
                     frame.pc += 1;
+                }
+                Stmt::AbortCmd(h) => {
+                    // takes effect when the aborted command is next polled; this task runs on to its
+                    // next await point, and everything already emitted is still delivered
+                    if let Some(uid) = g.handle_owner.get(&h).copied() {
+                        if g.aborted_cmds.insert(uid) {
+                            g.cmds_aborted_this_settle.insert(uid);
+                            g.pending_task_aborts.push(uid);
+                        }
+                    }
+                    frame.pc += 1;
+                    g.progress = true;
                 }
             }
         }
@@ -995,6 +1036,9 @@ pub struct CmdSt {
     polled: bool,
     finished: bool,
     node: Node,
+    /// left operand of `a.and(b)`: its tasks are tasks of the combined command itself (they share its
+    /// abort flag and its executor round), not of a hosted command of their own
+    inline_of: Option<u64>,
 }
 
 impl CmdSt {
@@ -1047,7 +1091,12 @@ impl CmdSt {
                 let b = CmdSt::new(b, init, g);
                 Node::Then { a: Some(Box::new(a)), b: Box::new(b) }
             }
-            Cmd::And(a, b) => Node::Par(vec![CmdSt::new(a, init, g), CmdSt::new(b, init, g)]),
+            Cmd::And(a, b) => {
+                let mut left = CmdSt::new(a, init, g);
+                left.inline_of = Some(uid);
+                g.inline_parent.insert(left.uid, uid);
+                Node::Par(vec![left, CmdSt::new(b, init, g)])
+            }
             Cmd::All(xs) => Node::Par(xs.iter().map(|x| CmdSt::new(x, init, g)).collect()),
             Cmd::MapEffect(k, x) => Node::MapEffect(*k, Box::new(CmdSt::new(x, init, g))),
             Cmd::MapEvent(k, x) => Node::MapEvent(*k, Box::new(CmdSt::new(x, init, g))),
@@ -1072,7 +1121,7 @@ impl CmdSt {
         for h in pending_handles {
             g.handle_owner.insert(h, uid);
         }
-        CmdSt { uid, handles, polled: false, finished: false, node }
+        CmdSt { uid, handles, polled: false, finished: false, node, inline_of: None }
     }
 
     pub fn is_finished(&self) -> bool {
@@ -1095,6 +1144,19 @@ impl CmdSt {
             Node::Par(xs) => xs.iter().for_each(|x| x.visit_waits(g, f)),
             Node::MapEffect(_, x) | Node::MapEvent(_, x) | Node::Wrap(x) => x.visit_waits(g, f),
             Node::Async(ts) => ts.iter().for_each(|t| t.seq.visit_waits(g, false, f)),
+        }
+    }
+
+    /// the (sub)command with this uid, if it is this one or nested inside it
+    pub fn find(&self, uid: u64) -> Option<&CmdSt> {
+        if self.uid == uid {
+            return Some(self);
+        }
+        match &self.node {
+            Node::Done | Node::Emit1(_) | Node::Chain { .. } | Node::Async(_) => None,
+            Node::Then { a, b } => a.as_ref().and_then(|a| a.find(uid)).or_else(|| b.find(uid)),
+            Node::Par(xs) => xs.iter().find_map(|x| x.find(uid)),
+            Node::MapEffect(_, x) | Node::MapEvent(_, x) | Node::Wrap(x) => x.find(uid),
         }
     }
 
@@ -1147,6 +1209,15 @@ impl CmdSt {
             return true;
         }
         if g.aborted_cmds.contains(&self.uid) {
+            if g.cmds_aborted_this_settle.contains(&self.uid) && self.polled {
+                // aborted from inside a task while it was running: tasks of this command that are
+                // runnable right now may or may not get one more poll, depending on queue order
+                let mut fired = false;
+                self.visit_waits(g, &mut |w| fired |= wait_fired(g, &w));
+                if fired {
+                    g.ambiguous = Some("command aborted by a task while other tasks of it were runnable".into());
+                }
+            }
             let mut live = false;
             self.visit_waits(g, &mut |w| live |= wait_live(g, &w));
             if !live {
@@ -1165,6 +1236,8 @@ impl CmdSt {
             return false;
         }
         self.polled = true;
+        let my_uid = self.uid;
+        let inline_of = self.inline_of;
         let fin = match &mut self.node {
             Node::Done => true,
             Node::Emit1(o) => {
@@ -1262,12 +1335,38 @@ impl CmdSt {
                 }
             }
             Node::Par(xs) => {
-                let mut all = true;
-                for x in xs.iter_mut() {
-                    if !x.run(g, outs, false) {
-                        all = false;
+                // the parts are tasks of this command: its executor runs them until none of them is
+                // ready any more before the command's own host gets control back
+                let outer = g.progress;
+                let mut all;
+                let mut any = false;
+                loop {
+                    g.progress = false;
+                    all = true;
+                    for x in xs.iter_mut() {
+                        if !x.run(g, outs, false) {
+                            all = false;
+                        }
+                    }
+                    if !g.progress || g.ambiguous.is_some() {
+                        break;
+                    }
+                    any = true;
+                    if g.aborted_here_or_inline(my_uid) {
+                        // aborted by one of its own tasks: they stop at their next await point
+                        break;
+                    }
+                    if inline_of.is_some() {
+                        // these tasks take turns with the other tasks of the combined command
+                        break;
+                    }
+                    g.local_rounds += 1;
+                    if g.local_rounds > 100_000 {
+                        g.ambiguous = Some("model did not reach a local fixpoint".into());
+                        break;
                     }
                 }
+                g.progress |= outer || any;
                 all
             }
             Node::MapEffect(k, x) => {
@@ -1304,19 +1403,44 @@ impl CmdSt {
             }
             Node::Wrap(x) => x.run(g, outs, false),
             Node::Async(ts) => {
-                let mut i = 0;
-                while i < ts.len() {
-                    let mut spawned = vec![];
-                    let r = ts[i].run(g, outs, &mut spawned, true);
-                    match r {
-                        TaskRun::Remove => {
-                            let t = ts.remove(i);
-                            g.live_tasks.remove(&t.uid);
+                // a self-waking task (and whatever it wakes in this command) is polled again before the
+                // command hands control back: the command's executor drains its ready queue
+                let outer = g.progress;
+                let mut any = false;
+                loop {
+                    g.progress = false;
+                    let mut i = 0;
+                    while i < ts.len() {
+                        let mut spawned = vec![];
+                        let r = ts[i].run(g, outs, &mut spawned, true);
+                        match r {
+                            TaskRun::Remove => {
+                                let t = ts.remove(i);
+                                g.live_tasks.remove(&t.uid);
+                            }
+                            TaskRun::Keep => i += 1,
                         }
-                        TaskRun::Keep => i += 1,
+                        ts.extend(spawned);
                     }
-                    ts.extend(spawned);
+                    if !g.progress || g.ambiguous.is_some() {
+                        break;
+                    }
+                    any = true;
+                    if g.aborted_here_or_inline(my_uid) {
+                        // aborted by one of its own tasks: they stop at their next await point
+                        break;
+                    }
+                    if inline_of.is_some() {
+                        // these tasks take turns with the other tasks of the combined command
+                        break;
+                    }
+                    g.local_rounds += 1;
+                    if g.local_rounds > 100_000 {
+                        g.ambiguous = Some("model did not reach a local fixpoint".into());
+                        break;
+                    }
                 }
+                g.progress |= outer || any;
                 ts.is_empty()
             }
         };
@@ -1383,6 +1507,10 @@ impl Model {
                 reqs: BTreeMap::new(),
                 handle_owner: BTreeMap::new(),
                 aborted_cmds: BTreeSet::new(),
+                cmds_aborted_this_settle: BTreeSet::new(),
+                pending_task_aborts: vec![],
+                local_rounds: 0,
+                inline_parent: BTreeMap::new(),
                 sticky: None,
                 cur_owner: 0,
                 aborted_tasks: BTreeSet::new(),
@@ -1522,10 +1650,12 @@ impl Model {
         g.reap = reap.clone();
         g.optional_zombies.clear();
         g.ran_this_settle.clear();
+        g.local_rounds = 0;
         let mut effects = vec![];
         let mut new_log = std::mem::take(&mut self.pending_new_log);
         let always = self.kind == HostKind::Direct;
         let mut guard = 0;
+        let mut queued: VecDeque<EvDesc> = VecDeque::new();
         loop {
             guard += 1;
             if guard > 10_000 {
@@ -1557,38 +1687,63 @@ impl Model {
                 // a finished command is gone from its host
                 self.roots.retain(|r| !r.cmd.finished);
             }
-            let mut had_event = false;
             for o in outs {
                 match o {
                     Out::Effect(e) => effects.push(e),
-                    Out::Event(ev) => {
-                        had_event = true;
-                        let entry = LogEntry::Em {
-                            em_label: ev.em_label,
-                            em_start: ev.em_start,
-                            seq: ev.seq,
-                            tag: ev.tag,
-                            val: ev.val,
-                            trace: ev.trace.clone(),
-                        };
-                        self.log.push(entry.clone());
-                        new_log.push(entry);
-                        if let Some(c) = &ev.cont {
-                            let st = CmdSt::new(c, ev.val, &mut self.g);
-                            let id = RootId::Cont { em_label: ev.em_label, em_start: ev.em_start, seq: ev.seq };
-                            self.roots.push(Root { id, cmd: st });
+                    Out::Event(ev) => queued.push_back(ev),
+                }
+            }
+            if !self.g.pending_task_aborts.is_empty() {
+                // aborting a command and one nested inside it in the same round: which is noticed
+                // first decides whether an enclosing `then` still starts its next part
+                let pend = std::mem::take(&mut self.g.pending_task_aborts);
+                let all: Vec<u64> = self.g.cmds_aborted_this_settle.iter().copied().collect();
+                for a in &pend {
+                    for b in &all {
+                        if a != b
+                            && self.roots.iter().any(|r| {
+                                r.cmd.find(*a).is_some_and(|c| c.find(*b).is_some()) || r.cmd.find(*b).is_some_and(|c| c.find(*a).is_some())
+                            })
+                        {
+                            self.g.ambiguous = Some("nested commands aborted by tasks in the same round".into());
                         }
                     }
                 }
             }
-            if !self.g.progress && !had_event {
+            if self.g.progress {
+                // tasks run to quiescence before any emitted event is applied
+                continue;
+            }
+            if queued.is_empty() {
                 break;
+            }
+            // a core applies one event, runs what its update returned to quiescence, then the next;
+            // a holder of bare commands collects all events of a round first
+            let n = if self.kind == HostKind::Core { 1 } else { queued.len() };
+            for _ in 0..n {
+                let Some(ev) = queued.pop_front() else { break };
+                let entry = LogEntry::Em {
+                    em_label: ev.em_label,
+                    em_start: ev.em_start,
+                    seq: ev.seq,
+                    tag: ev.tag,
+                    val: ev.val,
+                    trace: ev.trace.clone(),
+                };
+                self.log.push(entry.clone());
+                new_log.push(entry);
+                if let Some(c) = &ev.cont {
+                    let st = CmdSt::new(c, ev.val, &mut self.g);
+                    let id = RootId::Cont { em_label: ev.em_label, em_start: ev.em_start, seq: ev.seq };
+                    self.roots.push(Root { id, cmd: st });
+                }
             }
         }
         for r in self.g.reqs.values_mut() {
             r.woke = false;
         }
         self.g.aborted_this_settle.clear();
+        self.g.cmds_aborted_this_settle.clear();
         self.g.reap.clear();
         effects.sort();
         StepOut { effects, log: new_log }
